@@ -9,11 +9,53 @@ static MASTER_SCHED: AtomicU64 = AtomicU64::new(0);
 /// called at the top of `OutstationSession::run_idle_state`
 pub fn outstation_idle() {
     OUT_IDLE.fetch_add(1, Ordering::Relaxed);
+    spin_guard(&O_LAST, &O_CONSEC, "outstation idle state");
 }
 
 /// called on every iteration of the master's scheduling loop
 pub fn master_sched() {
     MASTER_SCHED.fetch_add(1, Ordering::Relaxed);
+    spin_guard(&M_LAST, &M_CONSEC, "master scheduler");
+}
+
+// ---- spin guard -----------------------------------------------------------------
+// Under the paused clock a loop that never rests keeps the runtime busy, virtual time
+// never advances and the harness would hang. The guard counts consecutive passes during
+// which neither virtual time nor the pipe activity counter moved; beyond any number a
+// correct endpoint can need, it records the fact and stops the endpoint task by panicking
+// (the harness then reports the spin as a violation of the scheduling property).
+pub const SPIN_LIMIT: u64 = 200_000;
+static M_LAST: std::sync::Mutex<Option<(tokio::time::Instant, u64)>> = std::sync::Mutex::new(None);
+static M_CONSEC: AtomicU64 = AtomicU64::new(0);
+static O_LAST: std::sync::Mutex<Option<(tokio::time::Instant, u64)>> = std::sync::Mutex::new(None);
+static O_CONSEC: AtomicU64 = AtomicU64::new(0);
+static SPINS: AtomicU64 = AtomicU64::new(0);
+
+fn spin_guard(last: &std::sync::Mutex<Option<(tokio::time::Instant, u64)>>, consec: &AtomicU64, who: &str) {
+    // only meaningful inside a runtime with a (paused) clock
+    if tokio::runtime::Handle::try_current().is_err() {
+        return;
+    }
+    let cur = (tokio::time::Instant::now(), crate::verif::io::activity());
+    let mut g = last.lock().unwrap_or_else(|e| e.into_inner());
+    if *g == Some(cur) {
+        let n = consec.fetch_add(1, Ordering::Relaxed) + 1;
+        if n > SPIN_LIMIT {
+            consec.store(0, Ordering::Relaxed);
+            *g = None;
+            drop(g);
+            SPINS.fetch_add(1, Ordering::Relaxed);
+            panic!("verif: spin detected: {who} made {SPIN_LIMIT} consecutive passes while virtual time and the wire stood still");
+        }
+    } else {
+        *g = Some(cur);
+        consec.store(0, Ordering::Relaxed);
+    }
+}
+
+/// number of times an endpoint was stopped because it was spinning
+pub fn spins() -> u64 {
+    SPINS.load(Ordering::Relaxed)
 }
 
 pub fn outstation_idle_count() -> u64 {
